@@ -14,7 +14,7 @@ EXPLANATION = [
     '(sequence number, SDU length) is carried exactly by first fragments; pb encodes (first, last); offsets advance by fragment_length; '
     'the sequence number advances once per SDU, modulo 2^16.',
     'C05.assembler: in HCI_AclDataPacketAssembler.feed_packet a start fragment replaces the state, a continuation without start '
-    'changes nothing, completion and overflow reset the state, and the completion threshold is the L2CAP length + the 4-byte basic header.',
+    'changes nothing, completion and overflow reset the state, and the completion threshold is the L2CAP length + the 4-byte basic header. On both the host and the controller side every normal path of Connection.on_hci_acl_data_packet feeds the fragment to the assembler exactly once and on_acl_pdu is reachable only as the assembler\'s callback; the virtual controller returns the buffer of every fragment at once (one completion event, this handle, count 1) on every path, so no buffer count can starve the host in the middle of a PDU.',
     'C05.l2cap-header: L2CAP_PDU header is <HH> (length, cid) on both sides and the payload starts at 4.',
     'C05.queue-geometry: each of the three host data queues takes max_packet_size and max_in_flight from the Read Buffer Size fields of its own buffer pool (ACL / LE ACL / ISO); LE shares the classic queue iff the controller announced no LE pool.',
     'C05.queue-order: the ACL queue between fragmentation and the controller is FIFO (including rebuilds on flush).',
@@ -223,7 +223,37 @@ def assembler(ctx):
     R.check(ok, rule, key + ' | overflow resets', 'data beyond the announced length discards only this PDU', 'overflow does not reset the assembler (the next PDU is corrupted)', p.loc(fn))
     for q in ('bumble.host.Connection.on_hci_acl_data_packet', 'bumble.controller.Connection.on_hci_acl_data_packet'):
         f2 = p.find(q)
-        R.check(f2 is not None and 'self.assembler.feed_packet(packet)' in norm(f2), rule, q, 'feeds the per-connection assembler', 'ACL packets are not fed to the per-connection assembler', p.loc(f2) if f2 else '')
+        if f2 is None:
+            R.bad(rule, q, 'anchor missing')
+            continue
+
+        class Feed(paths.Domain):
+            # (fed to the assembler, completion events sent with this connection's handle and count 1, other completion events)
+            def event(self, node, v):
+                if isinstance(node, ast.Call):
+                    if norm(node) == 'self.assembler.feed_packet(packet)':
+                        return ((v[0] + 1, v[1], v[2]),)
+                    if call_attr(node) == 'HCI_Number_Of_Completed_Packets_Event':
+                        kw = {k.arg: norm(k.value) for k in node.keywords}
+                        exact = kw.get('connection_handles') == '[self.handle]' and kw.get('num_completed_packets') == '[1]'
+                        return ((v[0], v[1] + exact, v[2] + (not exact)),)
+                return (v,)
+        res = paths.run(f2, Feed(), (0, 0, 0))
+        outs = {(k, v) for k, st in res.items() if not k.startswith('raise') for v in st}
+        R.check(bool(outs) and all(v[0] == 1 for k, v in outs), rule, q + ' | every fragment through the assembler', 'every normal path feeds the fragment to the per-connection assembler exactly once',
+                'a path handles a received ACL fragment without feeding it to the per-connection assembler: the assembler is not reset by that fragment, so a PDU abandoned earlier is later completed with foreign bytes', p.loc(f2), sorted(f'{k}: fed {v[0]}x' for k, v in outs if v[0] != 1)[:3])
+        if q.startswith('bumble.controller'):
+            R.check(bool(outs) and all(v[1] == 1 and v[2] == 0 for k, v in outs), rule, q + ' | buffer returned per fragment', 'every normal path reports exactly this one buffer as completed (handle of this connection, count 1)',
+                    'a path takes a host fragment without returning its buffer at once: with fewer buffers than the deferred count the host runs out of credits in the middle of a PDU and the link stalls', p.loc(f2), sorted(f'{k}: {v[1]} exact / {v[2]} other completion event(s)' for k, v in outs if v[1] != 1 or v[2])[:3])
+    # the PDU callback is reachable only through the assembler
+    for cq in ('bumble.host.Connection', 'bumble.controller.Connection'):
+        ci = p.cls(cq)
+        if ci is None:
+            continue
+        uses = [(mn, n) for mn, m in ci.methods.items() for n in ast.walk(m) if isinstance(n, ast.Attribute) and dotted(n) == 'self.on_acl_pdu']
+        okuse = [(mn, n) for mn, n in uses if isinstance(getattr(n, '_parent', None), ast.Call) and call_attr(n._parent) == 'HCI_AclDataPacketAssembler' and n in n._parent.args]
+        R.check(len(uses) == len(okuse) == 1, rule, cq + '.on_acl_pdu | only the assembler delivers', 'on_acl_pdu is referenced once, as the callback handed to HCI_AclDataPacketAssembler',
+                f'on_acl_pdu is also invoked outside the assembler ({sorted({mn for mn, n in uses if (mn, n) not in okuse})}): PDUs delivered around the assembler do not reset it', p.loc(ci.node) if hasattr(ci, 'node') else '')
     oc = p.find('bumble.host.Connection.on_acl_pdu')
     if oc is not None:
         R.check('L2CAP_PDU.from_bytes(pdu)' in norm(oc), rule, 'bumble.host.Connection.on_acl_pdu', 'reassembled bytes parsed as one L2CAP PDU', 'reassembled data is not parsed as an L2CAP PDU', p.loc(oc))
